@@ -43,21 +43,20 @@ def same_code(alg, r, code3):
 
 # ------------------------------------------------------------------------------------------------------- bp forms (E1)
 
-def bp_case(case):
-    op, m, k, lead, alias = case
-    rep = common.Report()
+def _bp_path(case, rep, eng):
+    op, m, k, lead, alias = case[:5]
     fn = getattr(logic, f'bp{m}v_{op}')
-    planes = 3 if m == 8 else 2
+    planes = 3 if (m == 8 or len(case) > 5) else 2          # 6th field: 4-valued operator on 3-plane arrays (bparray / LogicSim.s layout), plane 2 arbitrary
     shape = lead + (planes, 2)
     ins = []
     for j in range(k):
         a = np.empty(shape, dtype=object)
-        for idx in np.ndindex(shape): a[idx] = z3.BitVec(f'x{j}_' + '_'.join(map(str, idx)), 8)
+        for idx in np.ndindex(shape): a[idx] = lanes.LV(z3.BitVec(f'x{j}_' + '_'.join(map(str, idx)), 8))
         ins.append(a)
-    ins0 = [a.copy() for a in ins]
+    ins0 = [lanes.norm(a) for a in ins]
     out = ins[0] if alias else np.empty(shape, dtype=object)
     if not alias:
-        for idx in np.ndindex(shape): out[idx] = z3.BitVec('junk_' + '_'.join(map(str, idx)), 8)
+        for idx in np.ndindex(shape): out[idx] = lanes.LV(z3.BitVec('junk_' + '_'.join(map(str, idx)), 8))
     ret = fn(out, *ins)
     out = lanes.norm(out)
     alg = specmv.AlgMV(lanes.ZERO, lanes.ONES, m)
@@ -75,7 +74,7 @@ def bp_case(case):
             if op == 'not': bf = ~bf
             bad.append(z3.And(plain, z3.Or(o[0] != bf, o[1] != bf, o[2] != 0)))
     rep.counts['obligations'] += len(bad)
-    q = lanes.Q(rep)
+    q = lanes.Q(rep, eng=eng)
     r = q.check(z3.Or(bad))
     if ret is not out and ret is not None and not alias and not (isinstance(ret, np.ndarray) and ret.shape == out.shape):
         pass
@@ -92,8 +91,13 @@ def bp_case(case):
         else: rep.error(f'bp{m}v_{op} k={k}: counterexample does not replay')
     else:
         rep.error(f'bp{m}v_{op}: solver unknown')
-    return rep
+    return
 
+
+def bp_case(case):
+    rep = common.Report()
+    lanes.explore(lambda eng: _bp_path(case, rep, eng), rep)
+    return rep
 
 def code_spec_py(op, codes, m=8):
     """concrete documented result (set of acceptable 3-bit codes) via the same algebra on 1-bit ints"""
@@ -120,8 +124,9 @@ def replay(data):
         for li in np.ndindex(lead):
             for b in range(shape[-1]):
                 for lane in range(8):
-                    codes = [sum(((int(a[li + (p, b)]) >> lane) & 1) << p for p in range(shape[-2])) for a in ins0]
-                    got = sum(((int(out[li + (p, b)]) >> lane) & 1) << p for p in range(shape[-2]))
+                    np_ = min(shape[-2], 3 if m == 8 else 2)
+                    codes = [sum(((int(a[li + (p, b)]) >> lane) & 1) << p for p in range(np_)) for a in ins0]
+                    got = sum(((int(out[li + (p, b)]) >> lane) & 1) << p for p in range(np_))
                     exp = code_spec_py(op, codes, m)
                     if got not in exp:
                         return True, f'bp{m}v_{op}{tuple(codes)} = {got}, documented {sorted(exp)} (lane {lane})'
@@ -343,10 +348,12 @@ def jobs(tier):
             for lead in ((), (2,)):
                 J.append(('bp', (op, m, 1, lead, False)))
             J.append(('bp', ('not', m, 1, (), True)))
+            if m == 4: J += [('bp', (op, 4, 1, (), False, '3planes')), ('bp', (op, 4, 1, (), True, '3planes'))]
         for op in ('and', 'or', 'xor'):
             for k in (1, 2, 3, 4):
                 J.append(('bp', (op, m, k, (), False)))
             J.append(('bp', (op, m, 2, (2,), False)))
+            if m == 4: J += [('bp', (op, 4, 2, (), False, '3planes')), ('bp', (op, 4, 3, (), False, '3planes'))]
     shapes2 = [((1,), (1,)), ((2,), (2,)), ((2, 1), (1, 2)), ((1,), (2,))]
     if tier == 'thorough': shapes2 += [((3,), (3,)), ((2, 2), (2,)), ((2, 1, 1), (1, 2))]
     for op in ('and', 'or', 'xor'):
@@ -378,7 +385,7 @@ def run(tier, seed):
         'explanation': 'states = completed symbolic paths (bp forms have one path; mv forms fork on every comparison of a symbolic code); each mv path is also replayed on real uint8 arrays',
         'functions_encoded': common.fn_sha(logic._mv_not, logic._mv_and, logic._mv_or, logic._mv_xor, logic.mv_not, logic.mv_and, logic.mv_or, logic.mv_xor,
                                            logic.bp4v_buf, logic.bp4v_not, logic.bp4v_and, logic.bp4v_or, logic.bp4v_xor, logic.bp8v_buf, logic.bp8v_not, logic.bp8v_and, logic.bp8v_or, logic.bp8v_xor),
-        'bounds': {'operands': '1..4', 'jobs': len(J), 'mv_shapes': 'see samples; broadcasting (2,1)x(1,2), (1,)x(2,)', 'bp_shapes': '[(3|2,2), (2,3|2,2)]'},
+        'bounds': {'operands': '1..4', 'jobs': len(J), 'mv_shapes': 'see samples; broadcasting (2,1)x(1,2), (1,)x(2,)', 'bp_shapes': '[(3|2,2), (2,3|2,2)]; 4-valued operators also on 3-plane arrays with arbitrary third plane'},
         'exhaustive': False,
         'summary': f'{len(J)} jobs, {rep.counts["paths"]} paths, {rep.counts["obligations"]} obligations, {rep.counts["discharged"]} discharged',
     }
